@@ -150,6 +150,29 @@ pub fn check(case: &Case) -> Outcome {
                     out.viol("frame-roundtrip-differs", format!("frame {n}: {rest} bytes left or different re-serialisation; {ctxs}"));
                     return out;
                 }
+                // the same frame and its header with checksum checking switched off
+                let nocrc = catch(|| {
+                    let a = parser::frame::<E>(&info, false)(&fb).map(|(rest, f2)| rest.is_empty() && enc::frame_bytes(&f2, limit).map_or(false, |x| x == fb)).unwrap_or(false);
+                    let hb = {
+                        let mut s = ByteSink::new();
+                        let _ = f.header().write(&mut s);
+                        s.into_inner()
+                    };
+                    let b = parser::frame_header::<E>(false)(&hb).map(|(rest, _)| rest.is_empty()).unwrap_or(false);
+                    let c = parser::frame_header::<E>(true)(&hb).map(|(rest, _)| rest.is_empty()).unwrap_or(false);
+                    (a, b, c)
+                });
+                match nocrc {
+                    Ok((true, true, true)) => {}
+                    Ok((a, b, c)) => {
+                        out.viol("frame-roundtrip-differs:check_crc-variants", format!("frame {n}: parser::frame(check_crc=false) ok: {a}, parser::frame_header(false) ok: {b}, parser::frame_header(true) ok: {c}; {ctxs}"));
+                        return out;
+                    }
+                    Err(p) => {
+                        out.viol(format!("frame-parser-panic:{}", normalise(&p.sig())), format!("{} at {}", p.msg, p.loc));
+                        return out;
+                    }
+                }
             }
             Ok(Err(e)) => {
                 out.viol("parser-rejects-emitted-frame", format!("frame {n}: {e}; {ctxs}"));
